@@ -214,8 +214,8 @@ def Item.OK (ctx : Ctx) : Item → Prop
   | .cell c => c.WF ∧ c.payload.length < 268435456 ∧ (c.content = .blank ∨ (valueOf ctx c.style c.content).isSome)
   | .raw id p => id < 16384 ∧ interpretedId id = false ∧ p.length < 268435456
 
-/-- the buffer after `fill_buffer` read the payload `p` into `buf` -/
-def fillBuf (buf p : Bytes) : Bytes := if buf.length < p.length then p else p ++ buf.drop p.length
+/-- the buffer after `fill_buffer` read the payload `p` into `buf`: exactly the payload -/
+def fillBuf (_buf p : Bytes) : Bytes := p
 
 def Framed.id (f : Framed) : Nat := f.item.recId
 def Framed.pay (f : Framed) : Bytes := f.item.payload
